@@ -503,6 +503,34 @@ static EbErrorType reset_pcs_av1(PictureParentControlSet *pcs_ptr) {
 
     return EB_ErrorNone;
 }
+void svt_av1_build_quantizer(AomBitDepth bit_depth, int32_t y_dc_delta_q, int32_t u_dc_delta_q,
+                             int32_t u_ac_delta_q, int32_t v_dc_delta_q, int32_t v_ac_delta_q,
+                             Quants *const quants, Dequants *const deq);
+/***********************************************
+**** Build the quantizer tables of the sequence
+**** from the frame header of the first picture
+************************************************/
+static void build_sequence_quantizers(PictureParentControlSet *pcs_ptr) {
+    SequenceControlSet *scs_ptr = (SequenceControlSet *)pcs_ptr->scs_wrapper_ptr->object_ptr;
+    svt_av1_build_quantizer(AOM_BITS_8,
+                            pcs_ptr->frm_hdr.quantization_params.delta_q_dc[AOM_PLANE_Y],
+                            pcs_ptr->frm_hdr.quantization_params.delta_q_dc[AOM_PLANE_U],
+                            pcs_ptr->frm_hdr.quantization_params.delta_q_ac[AOM_PLANE_U],
+                            pcs_ptr->frm_hdr.quantization_params.delta_q_dc[AOM_PLANE_V],
+                            pcs_ptr->frm_hdr.quantization_params.delta_q_ac[AOM_PLANE_V],
+                            &scs_ptr->quants_8bit,
+                            &scs_ptr->deq_8bit);
+
+    if (scs_ptr->static_config.encoder_bit_depth == AOM_BITS_10)
+        svt_av1_build_quantizer(AOM_BITS_10,
+                                pcs_ptr->frm_hdr.quantization_params.delta_q_dc[AOM_PLANE_Y],
+                                pcs_ptr->frm_hdr.quantization_params.delta_q_dc[AOM_PLANE_U],
+                                pcs_ptr->frm_hdr.quantization_params.delta_q_ac[AOM_PLANE_U],
+                                pcs_ptr->frm_hdr.quantization_params.delta_q_dc[AOM_PLANE_V],
+                                pcs_ptr->frm_hdr.quantization_params.delta_q_ac[AOM_PLANE_V],
+                                &scs_ptr->quants_bd,
+                                &scs_ptr->deq_bd);
+}
 /***********************************************
 **** Copy the input buffer from the
 **** sample application to the library buffers
@@ -1144,6 +1172,12 @@ void *resource_coordination_kernel(void *input_ptr) {
                     ppcs_out->alt_ref_ppcs_ptr->end_of_sequence_flag = EB_TRUE;
 
                 reset_pcs_av1(ppcs_out);
+                // The quantizer tables of the sequence are read by every later stage, starting with
+                // the TPL dispenser in the Source Based Operations process. They have to be complete
+                // before the first picture leaves this (single threaded) process: any later stage
+                // may see the pictures of the first mini-GOP in a different order than picture 0 first.
+                if (ppcs_out->picture_number == 0)
+                    build_sequence_quantizers(ppcs_out);
                 svt_get_empty_object(context_ptr->resource_coordination_results_output_fifo_ptr,
                                      &output_wrapper_ptr);
                 out_results_ptr = (ResourceCoordinationResults *)output_wrapper_ptr->object_ptr;
